@@ -7,9 +7,12 @@
 (***************************************************************************)
 EXTENDS Transport, Json, Integers
 
-CONSTANT MaxLen
+CONSTANTS MaxLen, Small
 
-Segs == [fir : BOOLEAN, fin : BOOLEAN, seq : {62, 63, 0, 1}, src : {1, 2}, bc : BOOLEAN, n : {1, 2}]
+FullSegs == [fir : BOOLEAN, fin : BOOLEAN, seq : {62, 63, 0, 1}, src : {1, 2}, bc : BOOLEAN, n : {1, 2}]
+\* the reduced alphabet of the 3-switch cover: one source, no broadcast, one size
+SmallSegs == [fir : BOOLEAN, fin : BOOLEAN, seq : {62, 63, 0, 1}, src : {1}, bc : {FALSE}, n : {1}]
+Segs == IF Small THEN SmallSegs ELSE FullSegs
 
 VARIABLES a, c, hist, ok
 vars == <<a, c, hist, ok>>
@@ -25,5 +28,10 @@ Refines == ok
 \* the candidate of the property and the state of the assembler describe the same run
 Coupled == (a.st = "Running") = (c # <<>>) /\ (c # <<>> => a.parts = [i \in 1..Len(c) |-> c[i].id])
 View == <<a, c, ok, Len(hist)>>
+\* behaviour generation: one stream per reachable (assembler state, last three segments) over the reduced alphabet,
+\* one per (assembler state, last two segments) over the full one
+LastK(k) == SubSeq(hist, IF Len(hist) > k THEN Len(hist) - k + 1 ELSE 1, Len(hist))
+CoverView == <<a.st, a.src, a.bc, a.seq, Len(a.parts), LastK(IF Small THEN 3 ELSE 2)>>
+ExportAll == hist = <<>> \/ PrintT(<<"SCENARIO", ToJson(hist)>>)
 Export == Len(hist) < MaxLen \/ PrintT(<<"SCENARIO", ToJson(hist)>>)
 =============================================================================
